@@ -14,15 +14,11 @@ RULE = ('alphabet: every character of the default encoder table plus printable A
 EXHAUSTIVE = {'quick': False, 'thorough': False}
 ASSUMPTIONS = ['inputs are NFC-normalised by the harness (unicodedata is trusted)',
                'the non-invertible baseline is a committed list (noninvertible_baseline.json, regenerated into Gen/GenBaseline.v): the documented many-to-one approximations']
-PARTIAL = ['C08_roundtrip_partial: the DESIGN statement C08_roundtrip (forall strings over the alphabet without ligature pairs, '
-           'roundtrip p sl s = Some s) is NOT proved: it needs the C02 parser round-trip theorem (compositional parse of concatenated '
-           'chunks under a follow condition) and the C03 tree-level theorem (obligations listed in Properties/C08.v). Proved instead: '
-           '(all strings) the encoder half C08_encoding_is_chunkwise / C08_encoding_concat / C08_roundtrip_is_decode_of_chunks; '
-           '(finite sweeps over the regenerated table, bound in the statement) C08_single_characters = every character of the alphabet '
-           'x 4 schemes x 2 policies, C08_class_pairs = every non-ligature ordered pair of the class representatives (up to 8 members of '
-           'each chunk-shape class) x 4 x 2, C08_classes_covered, C08_alphabet_is_table / C08_alphabet_spec; C08_roundtrip_partial is the '
-           'restriction to strings of length <= 1 over the alphabet and length 2 over the representatives. Strings of length >= 3 and '
-           'pairs of non-representatives are covered by the correspondence and the oracle on the real code only.']
+PARTIAL = ['C08_roundtrip_partial is kept as a bounded instance only: the unbounded DESIGN statement is now the theorem '
+           'C08_roundtrip_unbounded (every string over the alphabet, any length, 4 schemes x 2 policies, no ligature pair, no '
+           'paragraph-whitespace run = the known finding) and C08_roundtrip_covered (any protection, any covered characters). '
+           'Nothing of the property as configured remains unproved at model level; the exclusion par_clean2 is exactly the known '
+           'finding (C08_paragraph_whitespace_refuted).']
 REFUTED = ['C08_paragraph_whitespace_refuted: the unbounded round trip is false on whitespace runs with two or more newlines other than the bare blank line (known finding paragraph-whitespace-collapsed; the bare paragraph break round-trips: C08_paragraph_break_roundtrips)']
 CASE_TIMEOUT = 10.0
 PROTS = ['none', 'braces', 'braces-all', 'braces-almost-all', 'braces-after-macro']
